@@ -262,22 +262,22 @@ class Properties:
             if self.packetType not in self.properties[self.getIdentFromName(name)][1]:
                 raise MQTTException(f"Property {name} does not apply to packet type {PacketTypes.Names[self.packetType]}")
 
-            # Check for forbidden values
-            if not isinstance(value, list):
+            # Check for forbidden values (each element when a list is assigned)
+            for v in (value if isinstance(value, list) else [value]):
                 if name in ["ReceiveMaximum", "TopicAlias"] \
-                        and (value < 1 or value > 65535):
+                        and (v < 1 or v > 65535):
 
                     raise MQTTException(f"{name} property value must be in the range 1-65535")
                 elif name in ["TopicAliasMaximum"] \
-                        and (value < 0 or value > 65535):
+                        and (v < 0 or v > 65535):
 
                     raise MQTTException(f"{name} property value must be in the range 0-65535")
                 elif name in ["MaximumPacketSize", "SubscriptionIdentifier"] \
-                        and (value < 1 or value > 268435455):
+                        and (v < 1 or v > 268435455):
 
                     raise MQTTException(f"{name} property value must be in the range 1-268435455")
                 elif name in ["RequestResponseInformation", "RequestProblemInformation", "PayloadFormatIndicator"] \
-                        and (value != 0 and value != 1):
+                        and (v != 0 and v != 1):
 
                     raise MQTTException(
                         f"{name} property value must be 0 or 1")
